@@ -1,6 +1,14 @@
 """Native replay for C11: runs the real validate_zipfile on concrete entry
 vectors and compares with an executable copy of the spec predicate (written
-from the property statement)."""
+from the property statement).
+
+Families (routed by `_family`): predicate (boundary lattice on in-memory records, duplicate names), order (event monitor over
+every ZIP-container entry point: well-formed document, document + bomb member, and -- round 5 -- the bomb document in the
+damaged shapes of `_damaged`: trailing data beyond / within zipfile's search window, stub in front, archive comment, truncated
+end record, local headers only), propagate (exception type at the extractors), sequence (recycled buffers), limits (round 5:
+default configuration values, validate_zipfile / open_zipfile / validate_zip_bytesio / ZipContext WITHOUT limits at -1/0/+1 of
+every default threshold -- the wrappers on real ZIPs with forged central directories -- and non-default limits through both
+wrappers)."""
 import io
 import itertools
 from fractions import Fraction
@@ -350,20 +358,63 @@ def _hinted_subjects(targets):
     return out
 
 
+def _eocd(data):
+    """(offset, end) of the last end-of-central-directory record of a well-formed container, or None."""
+    pos = data.rfind(b"PK\x05\x06")
+    if pos < 0 or pos + 22 > len(data):
+        return None
+    return pos, pos + 22 + int.from_bytes(data[pos + 20:pos + 22], "little")
+
+
+def _damaged(data):
+    """The error paths of the container grammar: the same bytes in the shapes that gateways / downloads / self-extractors
+    produce and that stock `zipfile` refuses or reads differently -- data after the end record (more than the 64 KiB window
+    zipfile searches, and a little), a stub in front, a ZIP comment, a truncated end record, a central directory that is gone
+    (local headers only).  Whatever a reader does with them (refuse, recover, repair), no member may be decompressed from a
+    container the guard has not accepted."""
+    out = [("followed by 70,000 zero bytes after the end-of-central-directory record", data + b"\0" * 70000),
+           ("followed by 300 bytes of trailing data", data + b"\r\n--gateway-signature--" * 12 + b"\0" * 12),
+           ("preceded by a 4,096-byte stub (self-extractor style)", b"MZ" + b"\x90" * 4094 + data)]
+    e = _eocd(data)
+    if e is not None:
+        pos, end = e
+        if end == len(data):
+            out.append(("with a 40-byte archive comment", data[:pos + 20] + (40).to_bytes(2, "little") + b"c" * 40))
+        out.append(("with the end-of-central-directory record cut after 10 bytes", data[:pos + 10]))
+        cd_off = int.from_bytes(data[pos + 16:pos + 20], "little")
+        if 0 < cd_off < pos:
+            out.append(("with the central directory cut off (local headers only)", data[:cd_off]))
+    return out
+
+
+def _stock_opens(data):
+    """A shape that stock zipfile reads is a readable bomb: it has to come back as the zip-bomb error like the undamaged one."""
+    import zipfile
+    try:
+        with zipfile.ZipFile(io.BytesIO(data), "r") as zf:
+            return len(zf.infolist()) > 0
+    except Exception:  # noqa
+        return False
+
+
 def native_order(only=None, extra_subjects=()):
     """Runs every ZIP-container entry point on a well-formed document and on the same document with a bomb member under the
     event monitor.  Failure = a member access on a container nobody validated, or a bomb that does not come back as
-    ExtractionZipBombError."""
+    ExtractionZipBombError.  Then the error paths: the bomb document in the damaged shapes of `_damaged` -- a shape stock zipfile
+    still reads must be rejected like the undamaged bomb, for the others any outcome is fine except a member access on a
+    container nobody validated."""
     hinted = {id(x[2]) for x in extra_subjects}
     for target, rel, call, data in list(extra_subjects) + _subjects():
         if only and not any(o in target for o in only):
             continue
-        for label, payload in (("well-formed document", data), ("same document plus a 3,000,000-byte all-zero member", None)):
-            if payload is None:
-                try:
-                    payload = _with_bomb_member(data)
-                except Exception:  # noqa
-                    continue
+        cases = [("well-formed document", data, True)]
+        try:
+            bomb = _with_bomb_member(data)
+            cases.append(("same document plus a 3,000,000-byte all-zero member", bomb, True))
+            cases += [(f"same document plus a 3,000,000-byte all-zero member, {how}", d, _stock_opens(d)) for how, d in _damaged(bomb)]
+        except Exception:  # noqa
+            pass
+        for label, payload, strict in cases:
             with Monitor() as mon:
                 res = _run(call, payload)
             if mon.violations:
@@ -372,7 +423,7 @@ def native_order(only=None, extra_subjects=()):
                         "expected": ORDER_EXPECT,
                         "observed": f"member `{nm}` opened on a container that was never validated ({len(mon.violations)} such access(es); "
                                     f"call ended with {res}); first events: {mon.trace()}"}
-            if label != "well-formed document" and res != "ExtractionZipBombError" and id(call) not in hinted:
+            if strict and label != "well-formed document" and res != "ExtractionZipBombError" and id(call) not in hinted:
                 return {"target": target, "inputs": {"fixture": "tests/resources/" + rel, "case": label},
                         "expected": "ExtractionZipBombError", "observed": res}
     return None
@@ -547,6 +598,188 @@ def predicate_sequences():
     return None
 
 
+# ------------------------------------------------- the configured limits: defaults and non-default settings --
+GIB = 1024 ** 3
+SPEC_DEFAULTS = {"max_entries": 50000, "total": 4 * GIB, "single": 1 * GIB, "total_ratio": 200, "entry_ratio": 500}
+FIELD_OF = {"max_entries": "max_entries", "total": "max_total_uncompressed_bytes", "single": "max_single_uncompressed_bytes",
+            "total_ratio": "max_total_compression_ratio", "entry_ratio": "max_entry_compression_ratio"}
+
+
+def _default_vectors(counts=True):
+    """Entry vectors at -1/0/+1 of every threshold of the documented default configuration."""
+    vectors = []
+    for d in (-1, 0, 1):
+        vectors.append((f"total uncompressed = 4 GiB{d:+d}", [(GIB, GIB // 100, False)] * 3 + [(GIB + d, GIB // 100, False)]))
+        vectors.append((f"single entry = 1 GiB{d:+d}", [(GIB + d, GIB // 100, False)]))
+        vectors.append((f"entry ratio = 500 (uncompressed 500*1000{d:+d}, compressed 1000)", [(500 * 1000 + d, 1000, False), (10, 1000000, False)]))
+        vectors.append((f"total ratio = 200 (two entries 200*1000{d:+d} / 1000)", [(200 * 1000 + d, 1000, False), (200 * 1000, 1000, False)]))
+        if counts:
+            vectors.append((f"entry count = 50000{d:+d}", [(1, 1, False)] * (50000 + d)))
+            vectors.append((f"entry count = 50000{d:+d} with directory records", [(1, 1, False)] * (49990 + d) + [(0, 0, True)] * 10))
+    return vectors
+
+
+def _forged_zip(entries):
+    """A real ZIP whose central directory claims the given (file_size, compress_size) per record (members are empty, stored;
+    directory records end with '/'): what a reader that trusts the central directory sees.  Sizes must fit 32 bits."""
+    import struct
+    import zipfile
+    buf = io.BytesIO()
+    with zipfile.ZipFile(buf, "w", zipfile.ZIP_STORED) as zf:
+        for i, (_fs, _cs, d) in enumerate(entries):
+            zf.writestr(f"m{i}/" if d else f"m{i}.bin", b"")
+    raw = bytearray(buf.getvalue())
+    pos = raw.find(b"PK\x01\x02")
+    for (fs_, cs_, _d) in entries:
+        if pos < 0 or raw[pos:pos + 4] != b"PK\x01\x02":
+            raise ValueError("central directory not where expected")
+        struct.pack_into("<II", raw, pos + 20, cs_, fs_)
+        nlen, xlen, clen = struct.unpack_from("<HHH", raw, pos + 28)
+        pos += 46 + nlen + xlen + clen
+    return bytes(raw)
+
+
+def native_default_wrappers():
+    """open_zipfile / validate_zip_bytesio / ZipContext called WITHOUT limits (what every in-library caller does) on real ZIPs with forged
+    central directories at -1/0/+1 of every default threshold; expected outcome from the executable spec on the records stock
+    zipfile lists, under the documented default configuration."""
+    import zipfile
+    try:
+        from sharepoint2text.parsing.extractors.util import zip_bomb
+        from sharepoint2text.parsing.exceptions import ExtractionZipBombError
+    except Exception:  # noqa
+        return None
+    vectors = _default_vectors(counts=False) + [(f"entry count = 50000{d:+d} with directory records", [(1, 1, False)] * (49990 + d) + [(0, 0, True)] * 10)
+                                                for d in (0, 1)]
+    for label, ent in vectors:
+        try:
+            payload = _forged_zip(ent)
+            with zipfile.ZipFile(io.BytesIO(payload)) as z:
+                seen = [(i.file_size, i.compress_size, i.is_dir()) for i in z.infolist()]
+        except Exception:  # noqa
+            continue
+        want = "rejected" if spec_reject_py(seen, SPEC_DEFAULTS) else "accepted"
+        subjects = [(f"zip_bomb.py::{name}", getattr(zip_bomb, name, None)) for name in ("open_zipfile", "validate_zip_bytesio")]
+        try:                   # the in-library caller every container extractor goes through: it configures nothing
+            from sharepoint2text.parsing.extractors.util.zip_context import ZipContext
+            subjects.append(("zip_context.py::ZipContext", ZipContext))
+        except Exception:  # noqa
+            pass
+        for name, fn in subjects:
+            if fn is None:
+                continue
+            try:
+                r = fn(io.BytesIO(payload))
+                if r is not None and hasattr(r, "close"):
+                    r.close()
+                got = "accepted"
+            except ExtractionZipBombError:
+                got = "rejected"
+            except Exception as e:  # noqa
+                got = f"other:{type(e).__name__}"
+            if got != want:
+                shown = seen if len(seen) <= 6 else f"{len(seen)} records, first {seen[0]}, last {seen[-1]}"
+                return {"target": f"{name} (limits not passed: the default configuration)",
+                        "inputs": {"case": label + " (real ZIP, forged central directory)", "entries (file_size, compress_size, is_dir)": shown,
+                                   "limits": "default"}, "expected": want, "observed": got}
+    return None
+
+
+def native_defaults():
+    """The default configuration (property: 50000 entries, 4 GiB total, 1 GiB single, total ratio 200, entry ratio 500):
+    field values of ZipBombLimits() / DEFAULT_ZIP_BOMB_LIMITS, the default of every `limits` parameter, and the decision of
+    validate_zipfile called WITHOUT limits on entry vectors at -1/0/+1 of every default threshold."""
+    import inspect
+    from sharepoint2text.parsing.extractors.util import zip_bomb
+    from sharepoint2text.parsing.exceptions import ExtractionZipBombError
+    L = SPEC_DEFAULTS
+    vectors = _default_vectors()
+    for label, ent in vectors:
+        want = "rejected" if spec_reject_py(ent, L) else "accepted"
+        try:
+            zip_bomb.validate_zipfile(FakeZip(ent))
+            got = "accepted"
+        except ExtractionZipBombError:
+            got = "rejected"
+        except Exception as e:  # noqa
+            got = f"other:{type(e).__name__}"
+        if got != want:
+            shown = ent if len(ent) <= 6 else f"{len(ent)} records, first {ent[0]}, last {ent[-1]}"
+            return {"target": "zip_bomb.py::validate_zipfile (limits not passed: the default configuration)",
+                    "inputs": {"case": label, "entries": shown, "limits": "default"}, "expected": want, "observed": got}
+    for name, obj in (("ZipBombLimits()", getattr(zip_bomb, "ZipBombLimits", lambda: None)()), ("DEFAULT_ZIP_BOMB_LIMITS", getattr(zip_bomb, "DEFAULT_ZIP_BOMB_LIMITS", None))):
+        for k, fld in FIELD_OF.items():
+            v = getattr(obj, fld, None)
+            if v != L[k]:
+                return {"target": f"zip_bomb.py::{name}", "inputs": {"field": fld}, "expected": L[k], "observed": v}
+    for fn in ("validate_zipfile", "open_zipfile", "validate_zip_bytesio"):
+        f = getattr(zip_bomb, fn, None)
+        if f is None:
+            continue
+        p_ = inspect.signature(f).parameters.get("limits")
+        dv = p_.default if p_ is not None else None
+        for k, fld in FIELD_OF.items():
+            if getattr(dv, fld, None) != L[k]:
+                break
+        else:
+            continue
+        if dv is None:
+            continue          # resolved inside the function: the vectors above / the wrapper lattice decide
+        return {"target": f"zip_bomb.py::{fn}", "inputs": {"parameter": "limits"}, "expected": "default = the default configuration",
+                "observed": repr(dv)[:200]}
+    return None
+
+
+def native_limits_lattice():
+    """open_zipfile / validate_zip_bytesio with NON-default limits on real ZIPs that lie between the configured and the
+    default thresholds: each limit set to the container's own value (accept) and just below it (reject); expected outcome from
+    the executable spec on the container's real central directory."""
+    import zipfile
+    from sharepoint2text.parsing.extractors.util import zip_bomb
+    from sharepoint2text.parsing.exceptions import ExtractionZipBombError
+    data = _zip_bytes([("a.txt", b"abcdefghij" * 40), ("b/", b""), ("b/c.xml", b"<x>" + b"y" * 3000 + b"</x>"), ("d.bin", bytes(range(256)) * 4)])
+    with zipfile.ZipFile(io.BytesIO(data)) as z:
+        ent = [(i.file_size, i.compress_size, i.is_dir()) for i in z.infolist()]
+    files = [e for e in ent if not e[2]]
+    tu, tc = sum(e[0] for e in files), sum(e[1] for e in files)
+    big = max(e[0] for e in files)
+    from fractions import Fraction
+    er = max(Fraction(e[0], e[1]) for e in files)
+    tr = Fraction(tu, tc)
+    base = {"max_entries": 1000, "total": 10 ** 9, "single": 10 ** 9, "total_ratio": 10 ** 6, "entry_ratio": 10 ** 6}
+    settings = []
+    for k, exact, below in (("max_entries", len(ent), len(ent) - 1), ("total", tu, tu - 1), ("single", big, big - 1),
+                            ("entry_ratio", float(er) + 0.5, float(er) - 0.5), ("total_ratio", float(tr) + 0.5, float(tr) - 0.5)):
+        settings.append(dict(base, **{k: exact}))
+        settings.append(dict(base, **{k: below}))
+    # a laxer-than-default setting must be honoured too: ratio ~1000 accepted when the ratio limits are raised
+    lax_data = _zip_bytes([("pad.txt", b" " * 2_000_000)])
+    with zipfile.ZipFile(io.BytesIO(lax_data)) as z:
+        lax_ent = [(i.file_size, i.compress_size, i.is_dir()) for i in z.infolist()]
+    cases = [(data, ent, L) for L in settings] + [(lax_data, lax_ent, dict(base, total_ratio=5000, entry_ratio=5000))]
+    for payload, entries, L in cases:
+        want = "rejected" if spec_reject_py(entries, L) else "accepted"
+        lim = zip_bomb.ZipBombLimits(max_entries=L["max_entries"], max_total_uncompressed_bytes=L["total"], max_single_uncompressed_bytes=L["single"],
+                                     max_total_compression_ratio=float(L["total_ratio"]), max_entry_compression_ratio=float(L["entry_ratio"]))
+        for name in ("open_zipfile", "validate_zip_bytesio"):
+            fn = getattr(zip_bomb, name, None)
+            if fn is None:
+                continue
+            try:
+                r = fn(io.BytesIO(payload), limits=lim, source="replay")
+                if r is not None and hasattr(r, "close"):
+                    r.close()
+                got = "accepted"
+            except ExtractionZipBombError:
+                got = "rejected"
+            except Exception as e:  # noqa
+                got = f"other:{type(e).__name__}"
+            if got != want:
+                return {"target": f"zip_bomb.py::{name}", "inputs": {"entries (file_size, compress_size, is_dir)": entries, "limits": L},
+                        "expected": want, "observed": got}
+    return None
+
+
 def _dirflag():
     """Directory flag: must agree with ZipInfo.is_dir() of the real library."""
     import zipfile
@@ -630,6 +863,12 @@ def _family(req):
 def find(req):
     tried = 0
     fam, hint = _family(req)
+    if fam == "limits":
+        r = native_defaults() or native_default_wrappers() or native_limits_lattice()
+        if r is not None:
+            r.update(reproduced=True, found_by="default-configuration boundary vectors / non-default limits on real ZIPs")
+            return r
+        return {"reproduced": False, "note": "defaults equal the documented configuration; configured limits are honoured by both wrappers"}
     if fam == "sequence":
         r = native_sequences() or predicate_sequences()
         if r is not None:
@@ -650,7 +889,9 @@ def find(req):
             return r
         return {"reproduced": False, "note": "every ZIP-container entry point validates before the first member access and "
                                              "answers a bomb member with ExtractionZipBombError"}
-    r = (native_wrappers() or native_sequences() or predicate_sequences()) if fam == "all" else (_dirflag() or predicate_sequences())
+    r = (native_wrappers() or native_limits_lattice() or native_defaults() or native_default_wrappers() or native_sequences()
+         or predicate_sequences()) if fam == "all" \
+        else (_dirflag() or native_defaults() or predicate_sequences())
     if r is not None:
         r.update(reproduced=True, found_by="native wrapper cases")
         return r
